@@ -36,6 +36,11 @@ for mp in sorted(glob.glob(os.path.join(ROOT, "seeded", "*", "meta.json"))):
     rows.append("| %s | %s | %s | %s |" % (sid, title.replace("|", "/"), cell, what.replace("|", "/")[:140]))
 out = ["| seeded change | what it changes | quick check verdict | first reported failing input |", "|---|---|---|---|"] + rows
 open(os.path.join(ROOT, "seeded", "MATRIX.md"), "w").write("\n".join(out) + "\n")
+dp = os.path.join(ROOT, "DESIGN.md")
+ds = open(dp).read()
+if "<!-- MATRIX-BEGIN -->" in ds:
+    a = ds.index("<!-- MATRIX-BEGIN -->") + len("<!-- MATRIX-BEGIN -->"); b = ds.index("<!-- MATRIX-END -->")
+    open(dp, "w").write(ds[:a] + "\n" + "\n".join(out) + "\n" + ds[b:])
 missed = [r for r in rows if "**missed**" in r]
 print(len(rows), "seeded changes;", len(missed), "missed;", sum("not run yet" in r for r in rows), "not run")
 for r in missed: print(r[:160])
